@@ -370,13 +370,15 @@ def self_attr_assignments(model, cls_qual, attr, include_subclasses=True):
     return out
 
 
-def inline_expr(rd, expr, nid, depth=8):
+def inline_expr(rd, expr, nid, depth=8, keep=()):
     """Copy of `expr` in which every local name with exactly one reaching
-    plain assignment is replaced by the assigned expression (recursively)."""
+    plain assignment is replaced by the assigned expression (recursively).
+    Names in `keep` are left alone."""
     import copy
 
     def rec(e, at, d, stack):
-        if isinstance(e, ast.Name) and isinstance(e.ctx, ast.Load) and d > 0:
+        if isinstance(e, ast.Name) and isinstance(e.ctx, ast.Load) and d > 0 \
+                and e.id not in keep:
             defs = rd.reaching(e.id, at)
             if len(defs) == 1 and defs[0].kind == "assign" and \
                     defs[0].value is not None and id(defs[0]) not in stack:
